@@ -139,6 +139,10 @@ def gen_gdb_session(seed, tier, weights, pid, ncmd_range=(1, 6), initial_filter_
     cmds = S.gen_commands(rng, voc, rng.randint(*ncmd_range), weights)
     out = [['cmd', c10.gdb_spelling(rng, c[1], c[2]), c[2]] for c in cmds]
     intents = S.insert_commands(rng, traffic, out)
+    if rng.random() < 0.2:
+        # output-side fault: Ctrl-C inside the write of the k-th live message line (not on the messages that also rename the
+        # connection): that line is lost on the screen, nothing else changes
+        cfg['ctrl_c_in_message_line'] = rng.choice([0, 0, 1, 2, 3, 5, 8, 13])
     if closing:
         intents += [['cmd', 'wl connection all', {'t': 'connection', 'to': 'all'}],
                     ['cmd', 'wllist *', {'t': 'list', 'm': {'kind': 'star'}, 'cap': None, 'closing': True}]]
